@@ -449,6 +449,7 @@ func runC14(c *an.Ctx) {
 	// ---------------------------------------------------------------- C14.count
 	c14count(c)
 	convGuards(c, "C14.count", []string{"(*Runtime).evaluateArgs"})
+	requireNumRule(c, "C14.count")
 	// ---------------------------------------------------------------- C14.table
 	c14table(c)
 }
@@ -656,6 +657,77 @@ func c14count(c *an.Ctx) {
 	})
 	c.Check(fresh, "C14.count", "(*Runtime).evaluateArgs/fresh-vector", f.Pos(), "the argument vector is allocated per call (evaluateArgs is re-entrant through nested calls)",
 		"evaluateArgs fills an argument vector that is not freshly made in this activation: a nested call in a later argument overwrites the arguments already evaluated for the outer call")
+	// an invalid value is an error in every position: whatever is stored into the argument vector was found
+	// valid (IsValid() true) on that path, or results from Convert of such a value
+	{
+		var vec types.Object
+		an.InspectOwn(f, func(n ast.Node) bool {
+			if ret, isRet := n.(*ast.ReturnStmt); isRet && len(ret.Results) == 2 {
+				if id, isId := an.Unparen(ret.Results[0]).(*ast.Ident); isId && id.Name != "nil" {
+					vec = an.ObjOf(info, id)
+				}
+			}
+			return true
+		})
+		nameOf := func(e ast.Expr) string { // term → "term", *pipedArg / (*pipedArg) → "pipedArg"
+			e = an.Unparen(e)
+			if st, ok := e.(*ast.StarExpr); ok {
+				e = an.Unparen(st.X)
+			}
+			if id, ok := e.(*ast.Ident); ok {
+				return id.Name
+			}
+			return ""
+		}
+		nStore, badStore := 0, token.NoPos
+		hooks := an.Hooks{
+			Branch: func(x *an.Explorer, cond ast.Expr, val bool, st *an.State) {
+				e := an.Unparen(cond)
+				neg := false
+				if u, ok := e.(*ast.UnaryExpr); ok && u.Op == token.NOT {
+					neg, e = true, an.Unparen(u.X)
+				}
+				if call, ok := e.(*ast.CallExpr); ok && an.CalleeName(info, call) == "(reflect.Value).IsValid" {
+					if nm := nameOf(an.Receiver(call)); nm != "" && val != neg {
+						st.Set("valid:"+nm, "1")
+					}
+				}
+			},
+			PreAssign: func(x *an.Explorer, lhs, rhs ast.Expr, stmt ast.Node, st *an.State) {
+				if ix, ok := an.Unparen(lhs).(*ast.IndexExpr); ok && vec != nil {
+					if id, ok := an.Unparen(ix.X).(*ast.Ident); ok && an.ObjOf(info, id) == vec && rhs != nil {
+						nStore++
+						if nm := nameOf(rhs); (nm == "" || st.Get("valid:"+nm) == "") && !badStore.IsValid() {
+							badStore = lhs.Pos()
+						}
+					}
+					return
+				}
+				nm := nameOf(lhs)
+				if nm == "" {
+					return
+				}
+				// v = v.Convert(T) keeps a valid value valid; any other assignment makes it unknown again
+				if call, ok := an.Unparen(rhs).(*ast.CallExpr); ok && rhs != nil && an.CalleeName(info, call) == "(reflect.Value).Convert" && nameOf(an.Receiver(call)) == nm {
+					return
+				}
+				// a copy of a value found valid is valid (also across the return of a spliced helper)
+				if rhs != nil {
+					if src := nameOf(rhs); src != "" {
+						st.Set("valid:"+nm, st.Get("valid:"+src))
+						return
+					}
+				}
+				st.Set("valid:"+nm, "")
+			},
+		}
+		x := p.NewExplorer(f, hooks)
+		x.Run(nil)
+		c.States += x.Visited
+		c.Expect("C14.count", "stores into the argument vector (state visits)", nStore, 1)
+		c.Check(!badStore.IsValid(), "C14.count", "(*Runtime).evaluateArgs/valid-arguments", f.Pos(), "every value placed in the argument vector was found valid on that path",
+			"evaluateArgs can place a value into the argument vector without having found it valid (IsValid) on that path: an invalid (nil/missing) argument is passed on — or silently replaced — instead of being reported as an error")
+	}
 	c.Check(ok && okReq, "C14.count", "(*Runtime).evaluateArgs/arity", f.Pos(), "the argument count is compared with NumIn() (!=, or < for variadics) before any argument is evaluated", firstNonEmpty(why, "the required count is not taken from NumIn()"))
 }
 
